@@ -7,6 +7,17 @@ import subprocess
 import sys
 
 _PROC = {}
+REAL_LIMIT = int(os.environ.get("VERIF_REAL_LIMIT", "90"))     # seconds the unpatched code may take for one request
+
+
+class RealTimeout(Exception):
+    """the unpatched code did not answer within the limit (it hangs or is exponentially slow on this input)"""
+
+    def __init__(self, func, args):
+        super().__init__("the real code gave no result within %ds for %s%r" % (REAL_LIMIT, func, args))
+        self.func, self.args_ = func, args
+
+
 HERE = os.path.dirname(os.path.dirname(os.path.abspath(__file__)))
 
 
@@ -30,6 +41,12 @@ def call(func, *args):
     data = pickle.dumps((func, args))
     p.stdin.write(struct.pack("<I", len(data)) + data)
     p.stdin.flush()
+    import select
+    ready, _w, _x = select.select([p.stdout], [], [], REAL_LIMIT)
+    if not ready:
+        p.kill()
+        _PROC.clear()
+        raise RealTimeout(func, args)
     hdr = p.stdout.read(4)
     if len(hdr) < 4:
         raise RuntimeError("real-code server died")
